@@ -230,6 +230,7 @@ func c10r1(c *core.Ctx) {
 }
 
 func c10r2(c *core.Ctx) {
+	lateServicesAreWired(c)
 	transportWiring(c)
 	charRegistration(c)
 	p := c.P
@@ -583,6 +584,7 @@ func c10r4(c *core.Ctx) {
 func c10r5(c *core.Ctx) {
 	p := c.P
 	closingRecipientDoesNotAbortFanout(c)
+	socketClosedBeforeSessionRemoved(c)
 	f := p.Func("hap", "(*Connection).Close")
 	if f == nil {
 		c.Undecided("Connection.Close", token.NoPos, "not found")
@@ -689,4 +691,34 @@ func closingRecipientDoesNotAbortFanout(c *core.Ctx) {
 	if n == 0 {
 		c.Undecided("encrypter-nil-checked", token.NoPos, "no Encrypt call in the write path of hap.Connection")
 	}
+}
+
+// socketClosedBeforeSessionRemoved: Connection.Close closes the socket first and removes the session afterwards. Connection.Write
+// chooses between the encrypted and the plain path by looking the session up; a writer that already holds the connection (the event
+// fan-out took it from ActiveConnections, a response is in flight) and runs between the two steps of Close finds no session and
+// puts its payload on the still open socket as it is: an EVENT with the characteristic's value in plain text inside the encrypted
+// stream of a connection that is being closed (4-9 % of server-initiated closes with a busy application: "Connection: close",
+// Stop()). With the socket closed first, whatever a late writer decides fails on the socket.
+func socketClosedBeforeSessionRemoved(c *core.Ctx) {
+	f := c.P.Func("hap", "(*Connection).Close")
+	if f == nil {
+		c.Undecided("Connection.Close", token.NoPos, "not found")
+		return
+	}
+	var del, closeRaw ssa.Instruction
+	core.Instrs(f, func(i ssa.Instruction) {
+		if core.IsInvoke(i, qContext, "DeleteSessionForConnection") {
+			del = i
+		}
+		if cc := core.CallOf(i); cc != nil && cc.IsInvoke() && cc.Method.Name() == "Close" && fromRawSocket(cc.Value) {
+			closeRaw = i
+		}
+	})
+	if del == nil || closeRaw == nil {
+		c.Undecided("socket-closed-before-session-removed@"+fname(f), f.Pos(), "Close does not both close the socket and remove the session")
+		return
+	}
+	c.Check(instrDominates(closeRaw, del) && !reachesAfter(del, closeRaw), "socket-closed-before-session-removed@"+fname(f), posOf(del),
+		"the socket is closed before the session is removed",
+		"Connection.Close removes the session while the socket is still open: a writer that runs in between (an event on its way to this connection) finds no session, takes the plain-text branch of Connection.Write and puts the payload — the characteristic's value — on the wire unencrypted, inside the encrypted stream")
 }
